@@ -535,12 +535,19 @@ def textLe : Text → Text → Bool
   | _ :: _, [] => false
   | a :: as, b :: bs => if a.toNat < b.toNat then true else if b.toNat < a.toNat then false else textLe as bs
 
+/-- kinds of keys in the order in which the model lists them (only one of numbers / strings occurs in a sequence
+that can be sorted at all, see `sortable`) -/
+def SKey.rank : SKey → Nat
+  | .smallest => 0
+  | .int _ => 1
+  | .str _ => 2
+  | .bad => 3
+
+/-- `a <= b` on keys: `_Smallest` below everything, numbers by value, strings by code points -/
 def SKey.le : SKey → SKey → Bool
-  | .smallest, _ => true
-  | _, .smallest => false
   | .int a, .int b => decide (a ≤ b)
   | .str a, .str b => textLe a b
-  | _, _ => true
+  | a, b => decide (a.rank ≤ b.rank)
 
 def keyOfVal : Val → SKey
   | .none => .smallest
